@@ -283,22 +283,17 @@ def gen_config(rng, tier, idx):
     if idx % 5 == 4:
         limit = 100
     else:
-        limit = rng.choice([1, 2, 3, 4, 4, 5, 5, 6, 6, 7, 8])
+        # around the fixed descriptors (2 per listener): degenerate, tight, roomy
+        limit = 2 * listeners + rng.choice([-1, 0, 1, 1, 2, 2, 3, 3, 4, 6])
     timeout = rng.choice([0, 1, 3, 5, 10, 120])
     interval = rng.choice([0, 1, 2, 4, 30])
     if idx % 7 == 6:
         timeout, interval = 120, 30
     send_bytes = rng.choice([1, 1, 1, 200, 18000])
     lookahead = rng.choice([0, 0, 0, 1, 2])
-    sndbuf = rng.choice([0, 7, 60, 300, 65536])
+    sndbuf = rng.choice([1, 7, 60, 300, 65536])
     t0 = rng.choice([0, 1000, 1700000000])
     return Config(listeners, limit, timeout, interval, send_bytes, lookahead, sndbuf, t0)
-
-
-def gen_history(rng, cfg, world_view, n):
-    """Events are drawn step by step against the current real world (so that
-    'application finishes' targets a channel with a queued task)."""
-    raise NotImplementedError
 
 
 def choose_event(rng, cfg, w, phase):
